@@ -27,6 +27,8 @@ TRUSTED = ["CPython binds a call to a signature without *args/**kwargs as Model/
            "inspect.signature / functools.wraps / functools.lru_cache behave as documented",
            "the hand-written equivalent dataclass of props/C20.py `_eq_source` is the 'equivalent dataclass' of the property"]
 ASSUMPTIONS = ["signatures have no *args/**kwargs parameter and no function-valued default",
+               "unhashable defaults in generated signatures are lists (copied; dict/set are covered by the regenerated fact and the "
+               "theorems only) and instances of a non-frozen dataclass (refused: known finding)",
                "default overrides given to config_for are hashable immutable values",
                "unannotated parameters either are ignored, or carry a bool/int/float/str default or a tuple of such (type inference), or are required "
                "(config_for then skips them with a warning: the property is silent about those)"]
@@ -115,7 +117,7 @@ def _gen_sig(rng, mode, bool_rate):
             ty = "fdc" if "fdc" not in used_nested else "int"
             used_nested.add(ty)
         if has_default:
-            if ty in MUTABLE_DEFAULTS and (ty == "dc" or rng.random() < 0.08):
+            if ty in MUTABLE_DEFAULTS and (ty == "dc" or rng.random() < 0.3):
                 default, mut = rng.choice(MUTABLE_DEFAULTS[ty]), True
             elif ty == "none" and mode == "cf":
                 default = rng.choice(CF_UNTYPED_DEFAULTS)
@@ -460,6 +462,15 @@ def gen(tier, seed):
                       argv=["1", "2.5", "--d", "4", "--c", "zz"], extra_pos=[], extra_kw=[]))
     cases.append(dict(mode="main", params=[P("x", "pk", "list", "[1, 2]", True)], doc=False, argv=[], extra_pos=[], extra_kw=[]))
     cases.append(dict(mode="main", params=[], doc=False, argv=[], extra_pos=[], extra_kw=[]))
+    # list defaults (fix: 4e8d91f main, 91c405f config_for) and the dataclass-instance default that stays a known finding
+    for argv in ([], ["--x", "4", "5"]):
+        cases.append(dict(mode="main", params=[P("x", "pk", "list", "[1, 2]", True), P("y", "pk", "int", "1")], doc=False, argv=argv,
+                          extra_pos=[], extra_kw=[]))
+        cases.append(dict(mode="cf", params=[P("x", "pk", "list", "[1, 2]", True), P("y", "pk", "int", "1")], doc=False, argv=argv,
+                          session=[dict(ignore=["absent"], frozen=None, over=[])] * 2, call_pos=[], call_kw=[]))
+    cases.append(dict(mode="main", params=[P("cfg", "pk", "dc", "Cfg()", True)], doc=False, argv=[], extra_pos=[], extra_kw=[]))
+    cases.append(dict(mode="cf", params=[P("cfg", "pk", "dc", "Cfg()", True)], doc=False, argv=[],
+                      session=[dict(ignore=["absent"], frozen=None, over=[])] * 2, call_pos=[], call_kw=[]))
     cases.append(dict(mode="cf", params=[P("params", "pk", "none"), P("lr", "pk", "float", "0.001"), P("betas", "pk", "list", "(1, 2)")],
                       doc=True, argv=["--lr", "0.1"], session=[dict(ignore=["str", "params"], frozen=None, over=[])] * 2,
                       call_pos=[], call_kw=[["params", "'given'"]]))
@@ -639,6 +650,9 @@ def run_impl(cases):
         params = case["params"]
         sig = inspect.signature(impl)
         defaults = {n: (None if p.default is inspect.Parameter.empty else _j(p.default)) for n, p in sig.parameters.items()}
+        sigdef = {n: p.default for n, p in sig.parameters.items() if isinstance(p.default, (list, dict, set))}
+        aliased = []
+        alias_scope = set(sigdef)      # config_for: narrowed to the parameters that are fields and not given at the call site
         import simple_parsing as sp
 
         def plain(fields_params, positional, argv):
@@ -655,9 +669,23 @@ def run_impl(cases):
             r = _short(r)
             if r[0] == "ok":
                 try:
-                    r = ["ok", [[k, _j(v)] for k, v in getattr(r[1], "_bound", r[1])]]
+                    pairs = list(getattr(r[1], "_bound", r[1]))
+                    r = ["ok", [[k, _j(v)] for k, v in pairs]]
                 except Exception as e:  # the stub's return value was replaced by something else
-                    r = ["raise", "NotTheStubResult:" + type(e).__name__]
+                    return ["raise", "NotTheStubResult:" + type(e).__name__]
+                # a list/dict/set default: the callable must get a copy; mutating what it got must not reach the signature
+                for k, v in pairs:
+                    if k in sigdef and k in alias_scope:
+                        if v is sigdef[k]:
+                            aliased.append(k)
+                        if isinstance(v, list):
+                            v.append(12345)
+                        elif isinstance(v, dict):
+                            v["__mutated__"] = 1
+                        elif isinstance(v, set):
+                            v.add(12345)
+                        if _j(sigdef[k]) != defaults[k]:
+                            aliased.append(k)
             return r
 
         if case["mode"] == "main":
@@ -668,6 +696,7 @@ def run_impl(cases):
             reset_simple_parsing_state()
             r = finish(outcome_of(lambda: main(f, args=list(case["argv"]))(*xp, **xk)))
             out.append(dict(defaults=defaults, expected=expected, ncalls=len(log), call=_call(log), result=r, inferred=[],
+                            aliased=sorted(set(aliased)),
                             xpos=[_j(v) for v in xp], xkw=[[k, _j(v)] for k, v in xk.items()]))
             continue
 
@@ -723,7 +752,16 @@ def run_impl(cases):
             continue
         import dataclasses
         import typing
-        flds = [[fl.name, None if fl.default is dataclasses.MISSING else _j(fl.default)] for fl in dataclasses.fields(cls0)]
+        def fdefault(fl):
+            if fl.default is not dataclasses.MISSING:
+                return _j(fl.default)
+            if fl.default_factory is not dataclasses.MISSING:
+                v = fl.default_factory()
+                if fl.name in sigdef and v is sigdef[fl.name]:
+                    aliased.append(fl.name)
+                return _j(v)
+            return None
+        flds = [[fl.name, fdefault(fl)] for fl in dataclasses.fields(cls0)]
 
         def ity(t):
             if t in (bool, int, float, str):
@@ -749,8 +787,12 @@ def run_impl(cases):
         def go():
             obj = sp.parse(cls0, args=list(case["argv"]), dest="args", add_config_path_arg=False)
             return obj(*cp, **ck)
+        alias_scope.intersection_update(n for n, _ in flds)
+        alias_scope.difference_update(ck)
+        if cp:
+            alias_scope.clear()
         r = finish(outcome_of(go))
-        out.append(dict(base, fields=["ok", flds], ncalls=len(log), call=_call(log), result=r))
+        out.append(dict(base, fields=["ok", flds], ncalls=len(log), call=_call(log), result=r, aliased=sorted(set(aliased))))
     return out
 
 
@@ -841,6 +883,9 @@ def _req_equal(a, b):
 def py_spec(case, obs):
     params = case["params"]
     exp = obs["expected"]
+    if obs.get("aliased"):
+        return (f"parameter(s) {obs['aliased']} with a list/dict/set default received the signature's default object itself "
+                f"(or the signature default changed when the received value was mutated)")
     if obs["ncalls"] > 1:
         return f"the callable was invoked {obs['ncalls']} times"
     if case["mode"] == "main":
@@ -991,6 +1036,8 @@ def signature(case, obs, reason):
         tag = "config_for"
         if reason.startswith("class derived for callable"):
             return "partial:wrong-fields"
+    if "received the signature's default object itself" in reason:
+        return f"{tag}:container-default-aliased"
     if reason.startswith("inferred type"):
         return f"{tag}:wrong-inferred-type"
     if "the parameter is annotated" in reason:
@@ -1000,7 +1047,10 @@ def signature(case, obs, reason):
         return f"{tag}-uncached:" + ("unhashable-ignore_args" if lists else "hashable-args")
     if obs["call"] is None and res[0] == "raise":
         if res[1] == "ValueError" and any(p["mut"] for p in params):
-            return f"{tag}-setup:ValueError:mutable-default"
+            # only an unhashable default of another kind (a dataclass instance) is a known finding; a list/dict/set default
+            # failing again would be a regression of fix 4e8d91f / 91c405f and must not hide behind it
+            other = any(p["mut"] and p["ty"] not in ("list",) for p in params)
+            return f"{tag}-setup:ValueError:" + ("dataclass-instance-default" if other else "list-dict-set-default")
         if res[1] == "TypeError" and any(p["ty"] == "bool" for p in params) and case["mode"] == "main":
             return f"{tag}-setup:TypeError:bool-param"
         if obs["expected"][0] == "ok":
@@ -1086,7 +1136,7 @@ def _params_coq(params, defaults):
         d = defaults.get(p["name"])
         ann = CANN_TAG[p["cann"]] if (p["ty"] == "none" and p.get("cann")) else ANN_COQ[p["ty"]]
         ps.append(f"mkparam {cstr(p['name'])} {KIND_COQ[p['kind']]} {ann} {copt(cstr(d)) if d is not None else 'None'} "
-                  f"{cbool(p['mut'])}")
+                  f"{'Immut' if not p['mut'] else '(MutC KList)' if p['ty'] == 'list' else 'MutOther'}")
     return ps
 
 
@@ -1118,7 +1168,8 @@ def to_coq(case, obs):
     inferred = clist([cpair(cstr(n), _city(t)) for n, t in obs.get("inferred", [])])
     return (f"mkcase {cbool(case['mode'] == 'main')} {clist(ps)} {_res_bind(obs['expected'])} "
             f"{clist([cstr(v) for v in obs['xpos']])} {_kv(obs['xkw'])} {reqs} {sess} {flds} {call} {_res_bind(obs['result'])} "
-            f"{untyped} {inferred} {pair} {clist([cpair(cstr(n), cbool(b)) for n, b in obs.get('ftype_ok', [])])}")
+            f"{untyped} {inferred} {pair} {clist([cpair(cstr(n), cbool(b)) for n, b in obs.get('ftype_ok', [])])} "
+            f"{clist([cstr(n) for n in obs.get('aliased', [])])}")
 
 
 def shrink(case):
